@@ -620,7 +620,7 @@ async def copy_observe(root, same, sz, roff, length, woff, cap):
 
 
 async def copy_run(rng, tier, root, only=None):
-    cases, bad, stats = [], [], {'done': 0, 'capped': 0}
+    cases, bad, stats = [], [], {'done': 0, 'capped': 0, 'same_file_refused': 0, 'multi_block': 0}
     sizes = [0, 1, BLOCK - 1, BLOCK, BLOCK + 1, 2 * BLOCK + 5]
     params = []
     for sz in sizes:
@@ -639,10 +639,14 @@ async def copy_run(rng, tier, root, only=None):
         PROGRESS['item'] = ['copy-data', same, sz, roff, length, woff, cap]
         reads, written, capped, replied, esc = await copy_observe(root, same, sz, roff, length, woff, cap)
         if esc:
-            bad.append(('copy-data', repr((same, sz, roff, length, woff)).encode(), esc))
+            bad.append(('copy-data', repr((same, sz, roff, length, woff)), esc))
         if not replied:
-            bad.append(('copy-data', repr((same, sz, roff, length, woff)).encode(), 'no reply to the request'))
+            bad.append(('copy-data', repr((same, sz, roff, length, woff)), 'no reply to the request'))
         stats['capped' if capped else 'done'] += 1
+        if same and reads == 0 and written == 0:
+            stats['same_file_refused'] += 1
+        if reads >= 2 and not capped:
+            stats['multi_block'] += 1
         cases.append('((%s, %d, %d, %d, %d, %d), (%d, %d, %s))' % (cbool(same), sz, roff, length, woff, cap,
                                                                    reads, written, cbool(capped)))
     return cases, bad, stats, params
@@ -894,7 +898,7 @@ async def fuzz_sftp_server(rng, root, full):
             if sess.w.closed or sess.task.done():
                 esc = await sess.finish()
                 if esc:
-                    findings.append(('run_sftp_server', b'after ' + label.encode(), esc))
+                    findings.append(('run_sftp_server', 'after ' + label, esc))
                 sess = SftpSession(asyncssh.SFTPServer(StubChan(), chroot=root))
                 await sess.init()
                 stats['ended'] += 1
@@ -910,7 +914,7 @@ async def fuzz_sftp_server(rng, root, full):
                     findings.append(('sftp request ' + label, frame(body), 'replies %r to request id %r' % (ids, rid)))
         esc = await sess.finish()
         if esc:
-            findings.append(('run_sftp_server', b'end of round', esc))
+            findings.append(('run_sftp_server', 'end of round', esc))
     for name in os.listdir(root):
         p = os.path.join(root, name)
         if os.path.isdir(p) and not os.path.islink(p):
@@ -1026,7 +1030,7 @@ async def fuzz_sftp_client(rng, full):
         for t in conn.tasks:
             if t.done() and not t.cancelled() and t.exception() is not None:
                 e = t.exception()
-                findings.append(('sftp client receive task', repr((kind, a, b)).encode(), type(e).__name__ + ': ' + str(e)[:80]))
+                findings.append(('sftp client receive task', 'reply %s to %s' % (b, a), type(e).__name__ + ': ' + str(e)[:80]))
         if outcome:
-            findings.append(('sftp client %s' % (a if kind == 'call' else 'start'), repr((kind, a if kind == 'call' else a.hex(), b)).encode(), outcome))
+            findings.append(('sftp client %s' % (a if kind == 'call' else 'start'), ('reply ' + b) if kind == 'call' else ('FXP_VERSION body ' + a.hex()), outcome))
     return findings, stats
